@@ -154,6 +154,20 @@ def build_cases(recs, table):
             elif k == "r":
                 cases = "; ".join("(%s, %s)" % (hexlist(r["bytes"]), "Some (%s, %s)" % (zlit(r["val"]), b(r["null"])) if r["ok"] else "None") for r in sub)
                 group(gid, sub, "map (fun c => opt_eqb zb_eqb (res_opt (%s (fst c))) (snd c)) [%s]" % (app(name), cases))
+    tm = {}
+    for r in recs:
+        if r["k"] == "tm":
+            tm.setdefault(r["name"], []).append(r)
+    for name, rs in tm.items():
+        if name in ("ConvertTimeToEpochMillis", "ConvertTimeToEpochDays"):
+            cases = "; ".join("((%s, %s), %s)" % (zlit(r["s"]), zlit(r["n"]), "Some %s" % zlit(r["v"]) if r["ok"] else "None") for r in rs)
+            group("time " + name, rs, "map (fun c => oz_eqb (res_opt (%s (fst c))) (snd c)) [%s]" % (name, cases))
+        elif name in ("ConvertEpochMillisToTime", "ConvertEpochDaysToTime"):
+            cases = "; ".join("(%s, (%s, %s))" % (zlit(r["x"]), zlit(r["s"]), zlit(r["n"])) for r in rs)
+            group("time " + name, rs, "map (fun c => zz_eqb (%s (fst c)) (snd c)) [%s]" % (name, cases))
+        else:
+            cases = "; ".join("(%s, %s)" % (zlit(r["x"]), "Some %s" % zlit(r["v"]) if r["ok"] else "None") for r in rs)
+            group("time " + name, rs, "map (fun c => oz_eqb (res_opt (%s (fst c))) (snd c)) [%s]" % (name, cases))
     bw = [r for r in recs if r["k"] == "bw"]
     if bw:
         group("writeBigInt (hand model)", bw, "map (fun c => zl_eqb (writeBigInt (fst c)) (snd c)) [%s]" % "; ".join("(%s, %s)" % (zlit(r["v"]), hexlist(r["bytes"])) for r in bw))
@@ -187,7 +201,7 @@ def check(run):
         "oracles (coq/base/GoNum.v, Section variable O): strconv.ParseInt/FormatInt, big.Int SetString/Text, IEEE-754 float64<->float32 conversion and ==, "
         "math.IsNaN, big.Float Float64/SetFloat64, time Parse/Format; each theorem that needs one states its contract as hypothesis (oracle_contract)",
         "model of time.Time as the instant (unix seconds, nanoseconds) and of *big.Int as an unbounded integer (coq/base/GoNum.v, GoInt.v)",
-        "coq/model/NumWire.v: hand model of writeBigInt/readBigInt, compared with the compiled functions on every run",
+        "coq/model/NumWire.v: hand model of writeBigInt/readBigInt, compared with the compiled functions on every run; proved equal to coq/model/CqlWire.v's model, whose varint theorems (proofs/CqlVarintProofs.v, cql area) C13_varint_roundtrip imports",
         "platform: strconv.IntSize = 64",
     ]
 
@@ -204,7 +218,7 @@ def check(run):
         if rc != 0:
             broken.append("harness num failed rc=%s: %s" % (rc, err[-400:]))
         else:
-            recs = [json.loads(l) for l in out.splitlines() if l.strip()]
+            recs = [json.loads(l) for l in out.split("\n") if l.strip()]
     for r in recs:
         if r["k"] == "missing":
             broken.append("harness cannot reach %s: datacodec/verif_hooks.go does not export it" % r["name"])
